@@ -14,7 +14,7 @@ use std::sync::Arc;
 pub const BASE_VAL: usize = 100;
 const TAKE_CAP: usize = 1 << 12;
 
-type BufFn<'a> = (usize, Box<dyn FnMut(Option<usize>) -> Value + 'a>);
+type BufFn<'a> = (usize, Box<dyn FnMut(Option<usize>, u8) -> Value + 'a>);
 
 fn obs_item<T: Obs>(run: &Run, x: T) -> (Value, i64) {
     x.obs(
@@ -36,6 +36,7 @@ fn observe_chunk<T: Obs, V: ExactSizeIterator<Item = T>>(
     begin: usize,
     mut values: V,
     take: Option<usize>,
+    via: u8,
 ) -> Value {
     let _g = Flag::off();
     let alen = counted(|| values.len());
@@ -45,11 +46,19 @@ fn observe_chunk<T: Obs, V: ExactSizeIterator<Item = T>>(
     let cap = take.unwrap_or(usize::MAX).min(TAKE_CAP);
     let mut endnone = false;
     let mut n = 0;
+    let mut rest = -1i64;
     // a panic while the chunk is consumed or dropped (clone / destructor of an element): report what the
     // caller had already taken, then let the panic continue
     let r = catch_unwind(AssertUnwindSafe(|| {
         while n < cap {
-            match counted(|| values.next()) {
+            // the client may take the items out through any method of Iterator
+            let item = match via & 3 {
+                1 => counted(|| values.nth(0)),
+                2 => counted(|| values.by_ref().take(1).fold(None, |_, x| Some(x))),
+                3 => counted(|| values.by_ref().find(|_| true)),
+                _ => counted(|| values.next()),
+            };
+            match item {
                 Some(x) => {
                     let (v, p) = obs_item(run, x);
                     vals.push(v);
@@ -63,6 +72,25 @@ fn observe_chunk<T: Obs, V: ExactSizeIterator<Item = T>>(
                 }
             }
         }
+        // ... and may get rid of the rest through any of them, too
+        if !endnone && cap < TAKE_CAP && via & 4 != 0 {
+            match via & 3 {
+                1 => {
+                    if let Some(x) = counted(|| values.nth(usize::MAX)) {
+                        vals.push(obs_item(run, x).0);       // there is no such item: reported, the monitor rejects it
+                    }
+                    rest = counted(|| values.len()) as i64 + (alen - n) as i64;
+                }
+                2 => rest = counted(|| values.by_ref().count()) as i64,
+                3 => {
+                    let left = counted(|| values.len());
+                    let last = counted(|| values.by_ref().last());
+                    rest = if last.is_some() == (left > 0) { left as i64 } else { -2 };
+                    counted(|| drop(last));
+                }
+                _ => {}
+            }
+        }
         counted(|| drop(values));
     }));
     if let Err(p) = r {
@@ -71,7 +99,7 @@ fn observe_chunk<T: Obs, V: ExactSizeIterator<Item = T>>(
         }
         resume_unwind(p);
     }
-    json!({"k":"chunk","b":w(begin),"alen":w(alen),"vals":vals,"pidx":pidxs,"lens":lens,"endnone":endnone})
+    json!({"k":"chunk","b":w(begin),"alen":w(alen),"vals":vals,"pidx":pidxs,"lens":lens,"endnone":endnone,"rest":rest})
 }
 
 fn visit(run: &Run, idx: i64, idxw: Option<usize>, v: Value, p: i64) {
@@ -129,14 +157,14 @@ where
             let n = arg(st);
             match counted(|| it.next_chunk(n)) {
                 None => none(),
-                Some(c) => observe_chunk(run, c.begin_idx, c.values, st.take),
+                Some(c) => observe_chunk(run, c.begin_idx, c.values, st.take, st.via),
             }
         }
         "fetchn" => {
             let n = arg(st);
             match counted(|| AtomicIter::fetch_n(it, n)) {
                 None => none(),
-                Some(c) => observe_chunk(run, c.begin_idx, c.values, st.take),
+                Some(c) => observe_chunk(run, c.begin_idx, c.values, st.take, st.via),
             }
         }
         "bnew" => {
@@ -145,16 +173,16 @@ where
             let run2 = run.clone();
             bufs[st.it] = Some((
                 n,
-                Box::new(move |take| match counted(|| b.next()) {
+                Box::new(move |take, via| match counted(|| b.next()) {
                     None => none(),
-                    Some(c) => observe_chunk(&run2, c.begin_idx, c.values, take),
+                    Some(c) => observe_chunk(&run2, c.begin_idx, c.values, take, via),
                 }),
             ));
             unit()
         }
         "bnext" => match bufs[st.it].as_mut() {
             None => json!({"k":"nobuf"}),
-            Some(f) => (f.1)(st.take),
+            Some(f) => (f.1)(st.take, st.via),
         },
         "bdrop" => {
             let b = bufs[st.it].take();
